@@ -51,6 +51,7 @@ type pcase struct {
 	ViaClient bool     `json:"via"`     // wrap as client.Start does ("…" + escapeArg) before removeQuotes
 	Out       string   `json:"out"`     // hex: bytes the producer prints on stdout
 	ErrOut    string   `json:"errout"`  // hex: bytes the producer prints on stderr
+	PFails    int      `json:"pfails"`  // the producer's first PFails attempts print something else and exit 1 (retryPolicy limit = PFails)
 	Want      []string `json:"want"`    // hex names of the variables to report
 	TimeoutMs int      `json:"timeout"` // per run of the child
 	Dir       string   `json:"dir"`     // (internal) scratch directory handed to the child
@@ -405,17 +406,23 @@ func runDyn(c pcase, res map[string]any) {
 	}
 	_ = os.WriteFile(filepath.Join(tmp, "payload.bin"), []byte(unhex(c.Out)), 0o644)
 	_ = os.WriteFile(filepath.Join(tmp, "errpayload.bin"), []byte(unhex(c.ErrOut)), 0o644)
-	_ = os.WriteFile(filepath.Join(tmp, "emit.sh"), []byte("d=\"$(dirname \"$0\")\"\ncat \"$d/payload.bin\"\ncat \"$d/errpayload.bin\" >&2\n"), 0o755)
+	_ = os.WriteFile(filepath.Join(tmp, "emit.sh"), []byte("d=\"$(dirname \"$0\")\"\nk=$(cat \"$d/pcount\" 2>/dev/null || echo 0)\necho $((k+1)) > \"$d/pcount\"\n"+
+		fmt.Sprintf("if [ $k -lt %d ]; then printf 'early-attempt-%%s-output = not the value\\n' $k; exit 1; fi\n", c.PFails)+
+		"cat \"$d/payload.bin\"\ncat \"$d/errpayload.bin\" >&2\n"), 0o755)
 	_ = os.WriteFile(filepath.Join(tmp, "failer.sh"), []byte("d=\"$(dirname \"$0\")\"\nif [ -f \"$d/failed_once\" ]; then exit 0; fi\n: > \"$d/failed_once\"\nexit 1\n"), 0o755)
 	pr := func(pos string) string { return yq(self + " --probe " + pos + " " + tmp) }
 	pa := func(pos string) string { return yq(self + " --probearg " + pos + " " + tmp + " $OUT") }
+	retryPol := ""
+	if c.PFails > 0 {
+		retryPol = fmt.Sprintf("    retryPolicy:\n      limit: %d\n      intervalSec: 0\n", c.PFails)
+	}
 	var y strings.Builder
 	if c.Params != "" {
 		y.WriteString("params: " + yq(unhex(c.Params)) + "\n")
 	}
 	y.WriteString("steps:\n")
 	y.WriteString("  - name: before\n    command: " + pr("before") + "\n")
-	y.WriteString("  - name: producer\n    command: " + yq("sh "+filepath.Join(tmp, "emit.sh")) + "\n    output: OUT\n    depends: [before]\n")
+	y.WriteString("  - name: producer\n    command: " + yq("sh "+filepath.Join(tmp, "emit.sh")) + "\n    output: OUT\n    depends: [before]\n" + retryPol)
 	y.WriteString("  - name: adjacent\n    command: " + pr("adjacent") + "\n    depends: [producer]\n")
 	y.WriteString("  - name: adjacentarg\n    command: " + pa("adjacentarg") + "\n    depends: [producer]\n")
 	y.WriteString("  - name: middle\n    command: \"true\"\n    depends: [adjacent]\n")
@@ -455,6 +462,9 @@ func runDyn(c pcase, res map[string]any) {
 	st1 := agt.Status()
 	res["run1_status"] = st1.Status.String()
 	res["run1_nodes"] = nodeStatuses(st1)
+	if b, e := os.ReadFile(filepath.Join(tmp, "pcount")); e == nil {
+		res["producer_attempts"] = strings.TrimSpace(string(b))
+	}
 
 	// ---- run 2 (as `retry --req`): recorded status from the history store, DAG re-loaded with the
 	//      recorded parameter string
